@@ -105,7 +105,7 @@ type corpusEntry struct {
 func loadCorpus() []corpusEntry {
 	p := os.Getenv("VERIF_CORPUS")
 	if p == "" {
-		p = "/verif/corpus/c07.jsonl"
+		p = drv.CorpusPath("c07.jsonl")
 	}
 	f, err := os.Open(p)
 	if err != nil {
@@ -125,7 +125,7 @@ func loadCorpus() []corpusEntry {
 }
 
 func loadKeyCorpus() []corpusEntry {
-	f, err := os.Open("/verif/corpus/c07-keys.jsonl")
+	f, err := os.Open(drv.CorpusPath("c07-keys.jsonl"))
 	if err != nil {
 		return nil
 	}
